@@ -100,6 +100,10 @@ extern int mpt_world_set(MPT_STRUCT(world) *wld, const char *name, MPT_INTERFACE
 		}
 		if ((type = mpt_world_pointer_typeid()) > 0
 		 && (len = src->_vptr->convert(src, type, &from)) >= 0) {
+			/* assignment to itself */
+			if (len && from == wld) {
+				return 0;
+			}
 			mpt_world_fini(wld);
 			mpt_world_init(wld, len ? from : 0);
 			return 0;
@@ -130,6 +134,10 @@ extern int mpt_world_set(MPT_STRUCT(world) *wld, const char *name, MPT_INTERFACE
 		}
 		if ((type = mpt_world_pointer_typeid()) > 0
 		 && (len = src->_vptr->convert(src, type, &from)) >= 0) {
+			/* assignment to itself */
+			if (len && from == wld) {
+				return 0;
+			}
 			mpt_world_fini(wld);
 			mpt_world_init(wld, len ? from : 0);
 			return 0;
